@@ -31,6 +31,26 @@ Theorem C03_cost_per_failure : forall rq o,
   f_failed (finish rq o) = if failed rq o then Some (extra_cost o) else None.
 Proof. exact finish_failed. Qed.
 
+(* the except ladder is regenerated from the source of RPCSession._throttled_request on every run (clauses
+   in order, what each does with the exception, which exceptions each catches - probed with issubclass on the
+   running classes): for every handler outcome that is an exception, the first clause that catches it is the
+   one the model implements; a cancellation is caught by none *)
+Theorem C03_ladder_from_source : forall o,
+  match raised o with Some x => handler_for x = ladder_expect o | None => ladder_expect o = None end.
+Proof. exact ladder_from_source. Qed.
+
+Theorem C03_cancellation_not_caught : handler_for XCancelled = None.
+Proof. exact cancellation_not_caught. Qed.
+
+Theorem C03_finish_follows_ladder : forall rq o,
+  match ladder_expect o with
+  | Some (LCode c, d, _) => f_result (finish rq o) = RError (JInt c) [] /\ f_disconnect (finish rq o) = d
+  | Some (LOwn, d, _) => (exists c m, f_result (finish rq o) = RError (JInt c) m) /\ f_disconnect (finish rq o) = d
+  | Some (LPayload, d, _) => f_disconnect (finish rq o) = d
+  | _ => f_disconnect (finish rq o) = false
+  end.
+Proof. exact finish_follows_ladder. Qed.
+
 Theorem C03_session_survives : forall base p xs, s_alive (serve_all base p xs) = true.
 Proof. exact survives. Qed.
 
@@ -44,3 +64,6 @@ Print Assumptions C03_one_wellformed_reply.
 Print Assumptions C03_isolation.
 Print Assumptions C03_cost_per_failure.
 Print Assumptions C03_session_survives.
+Print Assumptions C03_ladder_from_source.
+Print Assumptions C03_cancellation_not_caught.
+Print Assumptions C03_finish_follows_ladder.
